@@ -183,7 +183,53 @@ class Conv:
 
     # ------------------------------------------------------------------ running
     def _machine(self):
-        return Machine(self.F, self.policy)
+        m = Machine(self.F, self.policy)
+        m.variant_oracle = self.error_variants
+        return m
+
+    def error_variants(self, machine, x):
+        """The discriminants an error value can have, when it is the Err payload of a crate-local fallible constructor: that
+        constructor is analysed on its own for the instance at hand (opaque arguments; its boolean phases and parameter constants in
+        place, the arithmetic uninterpreted) and the variants of its Err outcomes are collected.  None when that analysis is not
+        conclusive (every variant stays possible)."""
+        if not (isinstance(x, T) and x[0] == "payload" and x[2] == "Err" and isinstance(x[1], T) and x[1][0] == "call"):
+            return None
+        d, inst = x[1][1], x[1][2]
+        key = (d, inst)
+        cache = self.__dict__.setdefault("_errvars", {})
+        if key in cache:
+            return cache[key]
+        cache[key] = None
+        cb = self.F.bodies.get(d)
+        if cb is None or not (cb.rec.get("output") or "").startswith("core::result::Result"):
+            return None
+        cfile = (cb.rec.get("span") or {}).get("file")
+
+        def pol(b2):
+            if b2.rec["kind"] in ("Closure", "Ctor"):
+                return True
+            if (b2.rec.get("span") or {}).get("file") != cfile:
+                return False
+            out = (b2.rec.get("output") or "").strip()
+            return out in ("bool", "()") or (not (b2.rec.get("inputs") or []) and len(b2.blocks) <= 2)
+        try:
+            outs = Machine(self.F, pol).run(cb, [T("a", i) for i in range(len(cb.rec.get("inputs") or []))], inst=inst if inst in self.F.instances else None)
+        except Exception:
+            return None
+        got = set()
+        for o in outs:
+            if o.kind != "return" or not isinstance(o.value, Adt):
+                return None
+            if o.value.variant == "Err":
+                e = o.value.fields[0] if o.value.fields else None
+                if not isinstance(e, Adt):
+                    return None
+                vi = machine.variant_index(e.name, e.variant)
+                if vi is None:
+                    return None
+                got.add(vi)
+        cache[key] = got
+        return got
 
     def shape(self, body):
         """(index of the byte-slice parameter or None, per-parameter kinds)"""
